@@ -3,6 +3,7 @@ import WP.Model.Access
 import WP.Model.Position
 import WP.Model.Admission
 import WP.Model.DynArray
+import WP.Model.PinoOffset
 /-
   Line-protocol driver: one operation per line on stdin, one canonical result line on stdout.
   `ok <fields…>` | `err <ErrorName>` | `bad-op`.  See DESIGN.md Appendix B.
@@ -130,6 +131,71 @@ def bundleLine (bm : List Nat) (toks : List String) : List Nat × String :=
       | .error e => (bm, "err " ++ e.name ++ " " ++ show_ bm)
   | _ => (bm, "bad-op")
 
+def showTick (t : TickData) : String :=
+  s!"{if t.initialized then 1 else 0} {t.net} {t.gross} {t.fgoA} {t.fgoB} {t.rgo.getD 0 0} {t.rgo.getD 1 0} {t.rgo.getD 2 0}"
+
+/-- `calculate_modify_tick_array`: (size change in ticks, rent units moved position → array) -/
+def tickArrayUpdate (isVar : Bool) (posLiq updLiq : Nat) (tickInit updInit : Bool) : Int × Int :=
+  if !isVar then (0, 0)
+  else
+    let rent : Int := if posLiq ≠ 0 && updLiq = 0 then -1 else if posLiq = 0 && updLiq ≠ 0 then 1 else 0
+    let size : Int := if tickInit && !updInit then -1 else if !tickInit && updInit then 1 else 0
+    (size, rent)
+
+def parseTick8 (l : List String) : Option TickData :=
+  match l with
+  | [i, net, gross, fa, fb, r0, r1, r2] => do
+    let i ← b01 i; let net ← net.toInt?
+    let n ← natArgs [gross, fa, fb, r0, r1, r2]
+    match n with
+    | [gross, fa, fb, r0, r1, r2] => pure { initialized := i, net := net, gross := gross, fgoA := fa, fgoB := fb, rgo := [r0, r1, r2] }
+    | _ => none
+  | _ => none
+
+/-- `pmod`: one modify-liquidity on an arbitrary state (C12):
+    pmod ts cur price liq fgA fgB rewardTs (init emis growth)x3 | lower upper pliq cpA owedA cpB owedB (cp owed)x3 | tl(8) | tu(8) | varL varU sign mag now -/
+def pmodLine (t : List String) : Option String :=
+  if t.length ≠ 16 + 13 + 8 + 8 + 5 then none else do
+  let pool := t.take 16
+  let pos := (t.drop 16).take 13
+  let tl ← parseTick8 ((t.drop 29).take 8)
+  let tu ← parseTick8 ((t.drop 37).take 8)
+  let tail := t.drop 45
+  let ts ← (pool.getD 0 "").toNat?
+  let cur ← (pool.getD 1 "").toInt?
+  let pn ← natArgs (pool.drop 2)
+  let posLower ← (pos.getD 0 "").toInt?
+  let posUpper ← (pos.getD 1 "").toInt?
+  let qn ← natArgs (pos.drop 2)
+  let varL ← b01 (tail.getD 0 "")
+  let varU ← b01 (tail.getD 1 "")
+  let sign ← b01 (tail.getD 2 "")
+  let mag ← (tail.getD 3 "").toNat?
+  let now ← (tail.getD 4 "").toNat?
+  let g := fun (l : List Nat) i => l.getD i 0
+  let rewards : List RewardInfo := (List.range 3).map fun i =>
+    { initialized := g pn (5 + 3 * i) ≠ 0, emissions := g pn (6 + 3 * i), growth := g pn (7 + 3 * i) }
+  let p : PoolD := { ts := ts, feeRate := 0, protoRate := 0, liq := g pn 1, price := g pn 0, tick := cur,
+                     fgA := g pn 2, fgB := g pn 3, rewardTs := g pn 4, rewards := rewards }
+  let position : PositionD := { lower := posLower, upper := posUpper, liq := g qn 0, cpA := g qn 1, owedA := g qn 2, cpB := g qn 3,
+                                owedB := g qn 4,
+                                rewards := (List.range 3).map fun i => { checkpoint := g qn (5 + 2 * i), owed := g qn (6 + 2 * i) } }
+  let delta : Int := if sign then (mag : Int) else -(mag : Int)
+  -- get_tick of both bounds comes first (the arrays are the ones containing the bounds)
+  if !isUsableTick posLower ts || !isUsableTick posUpper ts then pure "err TickNotFound" else
+  match calculateModifyLiquidity p position tl tu delta now with
+  | .error e => pure ("err " ++ e.name)
+  | .ok u =>
+    match calculateLiquidityTokenDeltas p.tick p.price posLower posUpper delta with
+    | .error e => pure ("err " ++ e.name)
+    | .ok (da, db) =>
+      let (sl, rl) := tickArrayUpdate varL position.liq u.position.liq tl.initialized u.tickLower.initialized
+      let (su, ru) := tickArrayUpdate varU position.liq u.position.liq tu.initialized u.tickUpper.initialized
+      let q := u.position
+      let pr := String.intercalate " " (q.rewards.map fun r => s!"{r.checkpoint} {r.owed}")
+      let rg := String.intercalate " " (u.rewards.map fun r => s!"{r.growth}")
+      pure s!"ok {u.poolLiq} {rg} {q.liq} {q.cpA} {q.owedA} {q.cpB} {q.owedB} {pr} {showTick u.tickLower} {showTick u.tickUpper} {da} {db} {sl} {rl} {su} {ru}"
+
 /-- state of the `D` (dynamic tick array) protocol: Anchor-region array, Pinocchio-region array, fixed array, spacing -/
 structure DynState where
   ad : DynArr
@@ -139,9 +205,6 @@ structure DynState where
 
 def fnv64 (bytes : List Nat) : UInt64 :=
   bytes.foldl (fun h b => (h ^^^ b.toUInt64) * 0x100000001b3) 0xcbf29ce484222325
-
-def showTick (t : TickData) : String :=
-  s!"{if t.initialized then 1 else 0} {t.net} {t.gross} {t.fgoA} {t.fgoB} {t.rgo.getD 0 0} {t.rgo.getD 1 0} {t.rgo.getD 2 0}"
 
 def dynLine (st : Option DynState) (toks : List String) : Option DynState × String :=
   match toks, st with
@@ -209,6 +272,15 @@ partial def loop (h : IO.FS.Stream) (out : IO.FS.Stream) (hist : Option HistStat
     let (hist', s) := histLine hist rest
     out.putStrLn s
     loop h out hist' bm dyn
+  | ["poff", start, tick, ts] =>
+    match start.toInt?, tick.toInt?, ts.toNat? with
+    | some start, some tick, some ts =>
+      out.putStrLn (match pinoUsableOffset start tick ts with | some k => s!"ok {k}" | none => "ok none")
+    | _, _, _ => out.putStrLn "bad-op"
+    loop h out hist bm dyn
+  | "pmod" :: rest =>
+    out.putStrLn ((pmodLine rest).getD "bad-op")
+    loop h out hist bm dyn
   | _ =>
     match stepPure toks with
     | some s => out.putStrLn s
